@@ -444,6 +444,42 @@ func generate(c *ctx, g *gen, thorough bool) {
 		}
 	}
 
+	// --- 2b. wide tuples: member indices >= 10 (default names "10", "11", ...), static members wider
+	// than one word inside arrays (head advance = member size, not 32) ---
+	{
+		var kids []*T
+		var vals []*V
+		for i := 0; i < 13; i++ {
+			k := &T{K: kUint, M: 8 * (i + 1)}
+			if i%4 == 3 {
+				k = &T{K: kString}
+			}
+			kids = append(kids, k)
+		}
+		wide := &T{K: kTuple, Kids: kids}
+		vals = g.value(wide, true).List
+		c.addDec(wide, vlist(vals), nil, nil)
+		for i, k := range wide.Kids {
+			if i == 2 || i == 11 {
+				k.Name = fmt.Sprintf("m%d", i)
+			}
+		}
+		c.addDec(wide, vlist(vals), r.Bytes(4), r.Bytes(9))
+		pair := func() *T { return &T{K: kTuple, Kids: []*T{{K: kUint, M: 256}, {K: kBytesN, M: 32}, {K: kInt, M: 64}}} }
+		for _, t := range []*T{
+			{K: kTuple, Kids: []*T{{K: kDynArr, Elem: pair()}, {K: kUint, M: 8}}},
+			{K: kTuple, Kids: []*T{{K: kFixedArr, Len: 3, Elem: pair()}, {K: kUint, M: 8}}},
+			{K: kTuple, Kids: []*T{{K: kFixedArr, Len: 2, Elem: &T{K: kFixedArr, Len: 2, Elem: pair()}}, {K: kString}}},
+			{K: kTuple, Kids: []*T{{K: kDynArr, Elem: &T{K: kFixedArr, Len: 2, Elem: &T{K: kUint, M: 16}}}, {K: kDynArr, Elem: &T{K: kFixedArr, Len: 2, Elem: &T{K: kString}}}}},
+			{K: kTuple, Kids: []*T{pair(), {K: kDynArr, Elem: &T{K: kDynArr, Elem: pair()}}, pair()}},
+		} {
+			for j := 0; j < 3; j++ {
+				c.addDec(t, g.value(t, false), g.pre(), g.post())
+			}
+			st.Hit("wide-static-members")
+		}
+	}
+
 	// --- 3. random trees and values ---
 	type tv struct {
 		t *T
@@ -590,6 +626,21 @@ func generate(c *ctx, g *gen, thorough bool) {
 		mk([]string{"x", "x"}, []*T{{K: kString}, {K: kBytes}}, []*V{vbytes([]byte("s")), vbytes([]byte{1, 2})}),          // duplicate
 		mk([]string{"1", "0"}, []*T{{K: kBool}, {K: kString}}, []*V{vnum(big.NewInt(0)), vbytes([]byte("swapped names"))}), // distinct
 	)
+	{
+		var kids []*T
+		for i := 0; i < 12; i++ {
+			k := &T{K: kUint, M: 16}
+			if i == 5 {
+				k = &T{K: kString}
+			}
+			if i == 3 {
+				k.Name = "named"
+			}
+			kids = append(kids, k)
+		}
+		t := &T{K: kTuple, Kids: kids}
+		serPool = append(serPool, tv{t, g.value(t, true)})
+	}
 	for i, p := range serPool {
 		if !validUTF8(p.t, p.v) {
 			st.Hit("ser:skipped-invalid-utf8")
@@ -597,7 +648,7 @@ func generate(c *ctx, g *gen, thorough bool) {
 		}
 		// every combination on the fixed members and on a slice of the random pool; a rotating
 		// subset elsewhere so that each case file stays small
-		full := i >= len(serPool)-11 || i%8 == 0
+		full := i >= len(serPool)-12 || i%8 == 0
 		k := 0
 		for mode := 0; mode < 3; mode++ {
 			for is := 0; is < 4; is++ {
